@@ -709,6 +709,8 @@ class SymInterp(Interp):
             return isclose
         if name == "array_equal":
             def array_equal(a, b, **kw):
+                if a is None or b is None:
+                    return a is None and b is None      # an array never equals None
                 a, b = S.asarr(a), S.asarr(b)
                 if a.shape != b.shape:
                     return False
@@ -897,8 +899,16 @@ class SymInterp(Interp):
                 return S.elementwise(one, c, a, b)
             return where
         if name in ("minimum", "maximum"):
-            def minmax2(a, b, _n=name[:3]):
-                return S.elementwise(lambda x, y: I.np_minmax(_n, SArr((2,), [rat(x), rat(y)])), a, b)
+            def minmax2(a, b, out=None, _n=name[:3], **k):
+                if k:
+                    raise AnalysisAbort(f"np.{name} keyword(s) {sorted(k)}")
+                res = S.elementwise(lambda x, y: I.np_minmax(_n, SArr((2,), [rat(x), rat(y)])), a, b)
+                if out is None:
+                    return res
+                if not isinstance(out, SArr):
+                    raise AnalysisAbort(f"np.{name}(out=...) with a non-array target")
+                out.setitem(Ellipsis, res)     # the result is written into the given array (which is also what is returned)
+                return out
             return minmax2
         if name == "clip":
             def clip(x, lo, hi):
